@@ -1166,6 +1166,24 @@ func (r *seqRun) loop(l *LoopRec) bool {
 				return false
 			}
 		}
+		if !isVals && ok {
+			// the integer argument list (Delete's indexes): positions and values as they are now (after a sort, the sorted ones)
+			if a, isInts := r.intArgs[tv.Obj]; isInts {
+				vals := append([]int64(nil), a...)
+				for j := range vals {
+					if l.Key != nil {
+						r.ints[l.Key] = int64(j)
+					}
+					if l.Value != nil {
+						r.ints[l.Value] = vals[j]
+					}
+					if !iterate() {
+						return false
+					}
+				}
+				return true
+			}
+		}
 		if !isVals {
 			r.fail("range over something that is not the argument list: " + r.c.termStr(l.Over))
 			return false
